@@ -158,6 +158,7 @@ class QueryBuilder:
     def build_rule(self):
         """query = an(entity(v := let(P), base condition)); with rule_mode(query): Add / refinement / alternative."""
         from entity_query_language import Add, refinement, alternative
+        from entity_query_language.rule import next_rule
         tree = self.q["tree"]
         nv = len(self.q["vars"])
         with symbolic_mode():
@@ -179,8 +180,9 @@ class QueryBuilder:
                         emit(node["ref"])
             if not node.get("reflast"):
                 refine()
-            for alt in node["alts"]:         # one `with alternative(...)` block after the other, in this node's block
-                with alternative(self.cond(alt["cond"])):
+            for alt in node["alts"]:         # one `with alternative(...)` / `with next_rule(...)` block after the other
+                block = next_rule if alt.get("edge") == "next" else alternative
+                with block(self.cond(alt["cond"])):
                     emit(alt)
             if node.get("reflast"):          # the refinement block written after the alternatives
                 refine()
